@@ -1,5 +1,38 @@
-//! Conformance harness for property C04, see /verif/DESIGN.md.
+//! Conformance harness for property C04 (pattern matching), see
+//! /verif/DESIGN.md section 6 and spec/Fnmatch.tla.
+//!
+//! * `enum`   spec -> impl: every pattern line printed by TLC (Gen_Fnmatch)
+//!            is compiled by the real `yash_fnmatch` and `is_match` / `find` /
+//!            `rfind` are compared with the match set / range tables that TLC
+//!            printed (Gen_FnmatchFind).
+//! * `random` impl -> spec: seeded random (pattern, string, configuration)
+//!            cases beyond the exhaustive bounds are executed on the real code
+//!            and recorded for validation by spec/Trace_Fnmatch.tla.
+//! * `redo`   re-executes recorded cases (replay of a violation).
+//! * `shell`  `${v#p}` `${v##p}` `${v%p}` `${v%%p}` and `case` through the
+//!            whole shell for the cases printed by TLC (Gen_FnmatchShell).
+mod fm;
+mod random;
+mod replay_enum;
+mod shell;
+
 fn main() {
-    eprintln!("yv-c04: not implemented yet");
-    std::process::exit(2);
+    let args: Vec<String> = std::env::args().collect();
+    if args.len() < 2 {
+        eprintln!("usage: yv-c04 <enum|random|redo|shell> ...");
+        std::process::exit(2);
+    }
+    yvcommon::util::quiet_panics();
+    let rest = &args[2..];
+    let code = match args[1].as_str() {
+        "enum" => replay_enum::run(rest),
+        "random" => random::run(rest),
+        "redo" => random::redo(rest),
+        "shell" => shell::run(rest),
+        other => {
+            eprintln!("unknown subcommand {other}");
+            2
+        }
+    };
+    std::process::exit(code);
 }
